@@ -58,7 +58,7 @@ theorem replaceKids_eq_replaceTop {h : Nat} {F : HTree → List HTree} : ∀ ks 
         | inl e' => exact absurd (e' ▸ e) hk
         | inr e' => exact ⟨k', e', e⟩
       have : h ∉ handles k := fun hm => n3 h hm ht'.mem_handlesList
-      rw [replaceBelow_of_not_mem k this, replaceKids_eq_replaceTop ks n2 ht']
+      rw [fs_replaceBelow_of_not_mem k this, replaceKids_eq_replaceTop ks n2 ht']
 
 theorem mapAtList_eq_replaceTop {h : Nat} {G : HTree → HTree} : ∀ ks : List HTree,
     (handlesList ks).Nodup → IsTop h ks → mapAtList h G ks = replaceTop h (fun k => [G k]) ks
@@ -70,8 +70,8 @@ theorem mapAtList_eq_replaceTop {h : Nat} {G : HTree → HTree} : ∀ ks : List 
     rw [replaceTop_cons]
     by_cases hk : k.handle = h
     · rw [if_pos hk]
-      have : h ∉ handlesList ks := n3 h (hk ▸ handle_mem_handles k)
-      rw [mapAtList_of_not_mem ks this]
+      have : h ∉ handlesList ks := n3 h (hk ▸ fs_handle_mem_handles k)
+      rw [fs_mapAtList_of_not_mem ks this]
       cases k with
       | node kh kv kks =>
         simp only [HTree.handle] at hk
@@ -84,7 +84,7 @@ theorem mapAtList_eq_replaceTop {h : Nat} {G : HTree → HTree} : ∀ ks : List 
         | inl e' => exact absurd (e' ▸ e) hk
         | inr e' => exact ⟨k', e', e⟩
       have : h ∉ handles k := fun hm => n3 h hm ht'.mem_handlesList
-      rw [mapAt_of_not_mem k this, mapAtList_eq_replaceTop ks n2 ht']
+      rw [fs_mapAt_of_not_mem k this, mapAtList_eq_replaceTop ks n2 ht']
 
 /-- `h`, a child of `p`, lies in the tree where `p` is found. -/
 theorem top_mem_of_find {p h : Nat} {v : Value} {L : List HTree} {t : HTree}
@@ -144,14 +144,14 @@ mutual
             · rw [if_neg hkp] at hk
               exact k1 (heq ▸ top_mem_of_findList hk ht)
         rw [if_neg hne, replaceBelow_eq_editAt k n1 hk ht,
-          replaceKids_of_not_mem ks (n3 h hin), map_editAt_of_not_mem ks (n3 p hpin)]
+          fs_replaceKids_of_not_mem ks (n3 h hin), map_editAt_of_not_mem ks (n3 p hpin)]
       | none =>
         rw [findList?_cons_none hk] at e
         have hin : h ∈ handlesList ks := top_mem_of_findList e ht
         have hpin : p ∈ handlesList ks := mem_of_findList?_some e
         have hnk : h ∉ handles k := fun hm => n3 h hm hin
         have hpk : p ∉ handles k := fun hm => n3 p hm hpin
-        rw [if_neg (handle_ne_of_not_mem hnk), replaceBelow_of_not_mem k hnk, editAt_of_not_mem k hpk,
+        rw [if_neg (handle_ne_of_not_mem hnk), fs_replaceBelow_of_not_mem k hnk, editAt_of_not_mem k hpk,
           replaceKids_eq_editAt ks n2 e ht]
 end
 
@@ -190,7 +190,7 @@ mutual
         subst e'
         have hin : h ∈ handles k := top_mem_of_find hk ht
         have hpin : p ∈ handles k := mem_of_find?_some hk
-        rw [mapAt_eq_editAt k n1 hk ht, mapAtList_of_not_mem ks (n3 h hin),
+        rw [mapAt_eq_editAt k n1 hk ht, fs_mapAtList_of_not_mem ks (n3 h hin),
           map_editAt_of_not_mem ks (n3 p hpin)]
       | none =>
         rw [findList?_cons_none hk] at e
@@ -198,7 +198,7 @@ mutual
         have hpin : p ∈ handlesList ks := mem_of_findList?_some e
         have hnk : h ∉ handles k := fun hm => n3 h hm hin
         have hpk : p ∉ handles k := fun hm => n3 p hm hpin
-        rw [mapAt_of_not_mem k hnk, editAt_of_not_mem k hpk, mapAtList_eq_editAt ks n2 e ht]
+        rw [fs_mapAt_of_not_mem k hnk, editAt_of_not_mem k hpk, mapAtList_eq_editAt ks n2 e ht]
 end
 
 end XotModel
